@@ -5,6 +5,7 @@ Protocol/Transport pattern for efficient, non-blocking I/O.
 """
 
 import asyncio
+import re
 
 from cryptography import x509
 
@@ -129,6 +130,11 @@ class GeminiClientProtocol(asyncio.Protocol):
 
         if len(parts) < 1:
             self._set_error(ValueError("Invalid response header: missing status"))
+            return
+
+        # int() alone also accepts '2_0', '+20', ' 20', '020' and non-ASCII digits
+        if not re.fullmatch(r"[0-9]{2}", parts[0]):
+            self._set_error(ValueError(f"Invalid status code: {parts[0]}"))
             return
 
         try:
@@ -374,6 +380,11 @@ class TitanClientProtocol(asyncio.Protocol):
 
         if len(parts) < 1:
             self._set_error(ValueError("Invalid response header: missing status"))
+            return
+
+        # int() alone also accepts '2_0', '+20', ' 20', '020' and non-ASCII digits
+        if not re.fullmatch(r"[0-9]{2}", parts[0]):
+            self._set_error(ValueError(f"Invalid status code: {parts[0]}"))
             return
 
         try:
